@@ -31,6 +31,7 @@ def run(ctx):
     ctx.fan(asan, "v64", 2000 if thorough else 60, timeout=60)
     ctx.fan(asan, "fixed", 32 if thorough else 4, timeout=60)
     ctx.fan(asan, "trunc", 64 if thorough else 8, timeout=60)
+    ctx.fan(plain, "hugebound", 16 if thorough else 2, timeout=60)      # length_packed with bounds 2^31 .. 2^33+12 over a lazily mapped region
     s = ctx.stats
     n32 = s.get("values32.range_enumerated", 0)
     evaluations = n32 + s.get("values64.heap", 0) + s.get("fixed.values", 0) * 16 + s.get("trunc.length_packed_terminated", 0)
@@ -43,7 +44,7 @@ def run(ctx):
              "(conservative: heap/random values are not added)",
         evaluations=evaluations,
         distinct=max(0, n32 - 128 * (1 if n32 else 0)),
-        floors={"values32.range_enumerated": 2 ** 20, "values64.heap": 1000, "fixed.values": 100, "trunc.overlong_decode": 64,
+        floors={"values32.range_enumerated": 2 ** 20, "hugebound.calls_bound_ge_2^32": 1000, "values64.heap": 1000, "fixed.values": 100, "trunc.overlong_decode": 64,
                 "boundary.2^7k+-1": 9},
         exhaustive=exhaustive32,
         extra={"exhaustive_subspace": "all 2^32 32-bit values" if exhaustive32 else "none (quick tier samples 2^20-value ranges)",
